@@ -361,5 +361,114 @@ def handler(count, out):
     json.dump(dict(evaluations=n, differs=[]), open(out + ".notes.json", "w"))
 
 
+def veto(path, limit):
+    """The cell-veto handler around the alias table: the real LeafUnitCellVetoEventHandler on a ring of six cells (three
+    non-nearby offsets), the estimator scripted so that the stored upper / lower bounds are two rate vectors of Walker.tla
+    (a non-positive bound where the vector has a zero).  For both signs of the charge factor, two active cells and every
+    (row, draw): per-offset masses as in Walker.tla, target = active cell + offset on the ring, confirmation bound = the
+    bound stored for that offset, proposal time = draw / (total * |factor| * speed)."""
+    import jellyfysh.setting as setting
+    from jellyfysh.base.node import Node
+    from jellyfysh.base.time import Time
+    from jellyfysh.base.unit import Unit
+    from jellyfysh.setting import hypercubic_setting
+    from jellyfysh.event_handler.leaf_unit_cell_veto_event_handler import LeafUnitCellVetoEventHandler
+    from jellyfysh.activator.internal_state.cell_occupancy.cells.cuboid_periodic_cells import CuboidPeriodicCells
+    tab = json.load(open(path))
+    vecs = [e for e in tab["vectors"] if len(e["v"]) == 3]
+    by_v = {tuple(e["v"]): e for e in vecs}
+    rng = random.Random(11)
+    pairs = [(a["v"], b["v"]) for a in vecs for b in vecs]
+    rng.shuffle(pairs)
+    pairs = pairs[:int(limit)]
+    setting.reset()
+    hypercubic_setting.HypercubicSetting(beta=1.0, dimension=1, system_length=6.0)
+    setting.set_number_of_root_nodes(2)
+    setting.set_number_of_nodes_per_root_node(1)
+    setting.set_number_of_node_levels(1)
+    cells = CuboidPeriodicCells(cells_per_side=[6], neighbor_layers=1)
+    cl = list(cells.yield_cells())
+    cid = {c: i for i, c in enumerate(cl)}
+    far = [2, 3, 4]                                     # offsets (and cells relative to cell 0) that are not nearby
+    fails, n = [], 0
+    state = {}
+
+    class Pot:
+        number_separation_arguments = 1
+        number_charge_arguments = 2
+
+    class Est:
+        potential = Pot()
+        up, low = None, None
+
+        def derivative_bound(self, lower_corner, upper_corner, direction, calculate_lower_bound=False):
+            c = int(round(lower_corner[0])) + 1            # the cell whose extent minus the zero cell's gives these corners
+            return (self.up[c], self.low[c]) if calculate_lower_bound else self.up[c]
+
+        def charge_correction_factor(self, active_charge, *rest):
+            return active_charge
+
+    def choice(seq):
+        state["rows"] = len(seq)
+        return seq[state["row"]]
+    real_exp = random.expovariate
+    random.choice, random.uniform, random.expovariate = choice, (lambda a, b: state["w"]), (lambda beta: 1.0)
+    try:
+        for v_up, v_low in pairs:
+            est = Est()
+            est.up = {c: (3.0 * v_up[i] if v_up[i] > 0 else -1.0) for i, c in enumerate(far)}
+            est.low = {c: (-3.0 * v_low[i] if v_low[i] > 0 else 1.0) for i, c in enumerate(far)}
+            with open(os.devnull, "w") as devnull, contextlib.redirect_stdout(devnull):
+                h = LeafUnitCellVetoEventHandler(estimator=est, charge="q")
+                h.initialize(cells, 1)
+            for cf in (1.0, -2.0):
+                v = v_up if cf > 0 else v_low
+                ent = by_v[tuple(v)]
+                if ent["total"] == 0:
+                    continue
+                stored = {c: 3.0 * v[i] for i, c in enumerate(far)}
+                for a in (0, 4):
+                    mass = [0] * 3
+
+                    def propose():
+                        root = Node(Unit((0,), [a + 0.5], {"q": cf}, [2.0], Time.from_float(0.0)))
+                        t, target = h.send_event_time([root])
+                        return t, cid[target[0]]
+                    state["row"], state["w"] = 0, 0.5
+                    propose()
+                    bad = None
+                    for r in range(state["rows"]):
+                        for j in range(ent["mean"]):
+                            state["row"], state["w"] = r, j + 0.5
+                            n += 1
+                            t, tc = propose()
+                            off = (tc - a) % 6
+                            if off not in far:
+                                bad = "target cell %d is not at a non-nearby offset from the active cell %d" % (tc, a)
+                                break
+                            mass[far.index(off)] += 1
+                            if h._bounding_event_rate != stored[off] * abs(cf):
+                                bad = ("confirmation bound %r is not the bound %r stored for the sampled offset %d (times the "
+                                       "charge factor)" % (h._bounding_event_rate, stored[off] * abs(cf), off))
+                                break
+                            want_dt = 1.0 / (float(ent["total"]) * abs(cf) * 2.0)
+                            if abs((t - Time.from_float(0.0)) - want_dt) > 1e-12 * want_dt:
+                                bad = "proposal time %r instead of draw / (total * |factor| * speed) = %r" % (t - Time.from_float(0.0), want_dt)
+                                break
+                        if bad:
+                            break
+                    if not bad and (state["rows"] != 3 or mass != ent["mass"]):
+                        bad = "per-offset proposal masses %s differ from Walker.tla's %s" % (mass, ent["mass"])
+                    if bad:
+                        fails.append(dict(what="cell-veto handler: " + bad.split(" %")[0][:60], detail=bad, upper=v_up, lower=v_low,
+                                          charge_factor=cf, active_cell=a))
+            if len(fails) > 10:
+                break
+    finally:
+        random.choice, random.uniform, random.expovariate = _real_choice, _real_uniform, real_exp
+        setting.reset()
+    json.dump(dict(evaluations=n, fails=fails[:10]), sys.stdout)
+
+
 if __name__ == "__main__":
-    {"table": table, "walker": walker, "flows": flows, "handler": handler}[sys.argv[1]](*sys.argv[2:])
+    {"table": table, "walker": walker, "flows": flows, "handler": handler, "veto": veto}[sys.argv[1]](*sys.argv[2:])
